@@ -224,6 +224,7 @@ def check(prop: str, tier: str) -> int:
                 k = match_known(known, prop, full, o["labels"])
                 if k is not None:
                     known_hits.append((k, full, o))
+                    n_obl -= 1          # reported separately: a listed known finding is neither proved nor counted
                 else:
                     violations.append((full, o))
             else:
@@ -304,7 +305,7 @@ def check(prop: str, tier: str) -> int:
             functions_under_contract=fn_records,
             backends=backends, solver_s=round(solver_s, 2),
             undecided=undecided, refuted=[f for f, _ in violations],
-            known_findings_hit=unrepaired,
+            known_findings_hit=unrepaired, known_finding_obligations_refuted=len(known_hits),
             bounded_parts=[{k: v for k, v in b.items() if k != "failure"} for b in bounded],
             exit_code=exit_code,
             explanation="obligations = verification conditions generated by pyvc from the current /repo source "
